@@ -10,33 +10,47 @@
    rebuilds the namespace for every record so that the result is a function of (selector, record) only.
 
    Dev: "NamespaceNotReset" -- leftovers of the previous match (generator variables, the `fields` helper, the
-        typed matcher) survive into the next one; "AdapterIgnoresSelector" -- a reader that yields everything. *)
+        typed matcher) survive into the next one; "AdapterIgnoresSelector" -- a reader that yields everything;
+        "SkipOnlyOnFalse" -- a reader that skips a record only when the result IS False (a selector may evaluate
+        to any value: 0, "", None, [] are falsy without being False);
+        "RejectCachePerType" -- the matcher remembers record TYPES on which the selector did not match and
+        rejects later records of such a type unseen. *)
 EXTENDS Naturals, Sequences, FiniteSets, TLC
 CONSTANTS MaxLen, Dev
 
 Shapes == {"a1", "a2", "b"}            \* two records of one type, one of another type (lacks a field)
-Sels == {"plain", "gen", "typed"}      \* a comparison; an any(...) generator; a typed matcher / fields() user
-\* Python meaning of each selector on each shape
-Meaning(s, sh) == CASE s = "plain" -> sh \in {"a1"}
-                    [] s = "gen"   -> sh \in {"a1", "a2"}
-                    [] s = "typed" -> sh \in {"a2", "b"}
+TypeOf(sh) == IF sh = "b" THEN "B" ELSE "A"
+\* a comparison; an any(...) generator; a typed matcher / fields() user; a bare value (r.s, r.n % 2, lower(r.s));
+\* a comparison on a field one type lacks OR a helper that looks at values
+Sels == {"plain", "gen", "typed", "value", "mixed"}
+\* what the expression evaluates to: "T" / "F" (the booleans) or a "truthy" / "falsy" non-boolean value
+Result(s, sh) == CASE s = "plain" -> IF sh \in {"a1"} THEN "T" ELSE "F"
+                   [] s = "gen"   -> IF sh \in {"a1", "a2"} THEN "T" ELSE "F"
+                   [] s = "typed" -> IF sh \in {"a2", "b"} THEN "T" ELSE "F"
+                   [] s = "value" -> IF sh = "a1" THEN "truthy" ELSE "falsy"
+                   [] s = "mixed" -> IF sh \in {"a2"} THEN "T" ELSE "F"
+\* Python meaning of each selector on each shape: the truth value of the result
+Meaning(s, sh) == Result(s, sh) \in {"T", "truthy"}
 \* what the as-built matcher computes when its namespace still holds leftovers from a record of shape `prev`
 Stale(s, sh, prev) == CASE s = "gen"   -> IF prev # "none" THEN "raise" ELSE IF Meaning(s, sh) THEN "yes" ELSE "no"   \* "overwrites existing variable"
                         [] s = "typed" -> IF prev # "none" THEN (IF Meaning(s, prev) THEN "yes" ELSE "no") ELSE IF Meaning(s, sh) THEN "yes" ELSE "no"
                         [] OTHER -> IF Meaning(s, sh) THEN "yes" ELSE "no"
 
-VARIABLES src, sel, pos, out, prev, failed
-vars == <<src, sel, pos, out, prev, failed>>
+VARIABLES src, sel, pos, out, prev, failed, rejected
+vars == <<src, sel, pos, out, prev, failed, rejected>>
 Seqs(n) == UNION {[1..k -> Shapes] : k \in 0..n}
-Init == src \in Seqs(MaxLen) /\ sel \in Sels /\ pos = 0 /\ out = <<>> /\ prev = "none" /\ failed = FALSE
+Init == src \in Seqs(MaxLen) /\ sel \in Sels /\ pos = 0 /\ out = <<>> /\ prev = "none" /\ failed = FALSE /\ rejected = {}
 Step == /\ pos < Len(src) /\ ~failed
         /\ LET sh == src[pos + 1]
                res == IF "AdapterIgnoresSelector" \in Dev THEN "yes"
+                      ELSE IF "SkipOnlyOnFalse" \in Dev THEN (IF Result(sel, sh) = "F" THEN "no" ELSE "yes")
+                      ELSE IF "RejectCachePerType" \in Dev /\ TypeOf(sh) \in rejected THEN "no"
                       ELSE IF "NamespaceNotReset" \in Dev THEN Stale(sel, sh, prev)
                       ELSE IF Meaning(sel, sh) THEN "yes" ELSE "no"
            IN /\ out' = IF res = "yes" THEN Append(out, pos + 1) ELSE out
               /\ failed' = (res = "raise")
               /\ prev' = sh
+              /\ rejected' = IF res = "no" THEN rejected \cup {TypeOf(sh)} ELSE rejected
         /\ pos' = pos + 1 /\ UNCHANGED <<src, sel>>
 Next == Step
 Spec == Init /\ [][Next]_vars
